@@ -10,5 +10,8 @@ int main(void) {
   printf("BBC_H %lu\nBAA_H %lu\nBBB_H %lu\n", c->h, a->h, b->h);
   const uint32_t q[4] = {Q1, Q2, Q3, Q4};
   for (int k = 0; k < 4; ++k) printf("BBC_P %d %lu %lu %u\n", k, c->s2l_pow_red[k], c->s2h_pow_red[k], q[k]);
+  int ok = 1;
+  for (int k = 0; k < 4; ++k) ok &= c->s2l_pow_red[k] == (uint64_t)((((unsigned __int128)1) << 32) % q[k]) && c->s2h_pow_red[k] == (uint64_t)((((unsigned __int128)1) << (32 + c->h)) % q[k]);
+  printf("OBLIGATION bbc_table_wf %s s2l_pow_red == 2^32 mod q, s2h_pow_red == 2^(32+h) mod q, h=%lu (real constructor, this machine)\n", ok ? "OK" : "FAIL", c->h);
   return 0;
 }
